@@ -61,18 +61,18 @@ func checkC16(c *Ctx, e *Env) {
 	nW := 0
 	for _, s := range inv.AllWrites() {
 		if isCanaryFn(s.Fn) {
-			c.Violate("C16.INSONLY", funcKey(s.Fn)+"#"+s.Table.Name+"."+s.Method, p.Pos(s.Call.Pos()), "canary", nil)
+			c.Violate("C16.INSONLY", funcKey(s.Fn)+"#"+s.Table.Name+"."+s.Method, p.Pos(s.At()), "canary", nil)
 			continue
 		}
 		nW++
 		key := funcKey(s.Fn) + "#" + s.Table.Name + "." + s.Method
 		al, known := allowed[s.Table.Name]
 		if !known {
-			c.Undecide("C16.INSONLY", key, p.Pos(s.Call.Pos()), "write to a table that was not in the confirmed schema: "+s.Table.Name)
+			c.Undecide("C16.INSONLY", key, p.Pos(s.At()), "write to a table that was not in the confirmed schema: "+s.Table.Name)
 			continue
 		}
 		if !al[s.Kind] {
-			c.Violate("C16.INSONLY", key, p.Pos(s.Call.Pos()), fmt.Sprintf("%s on %s: this table may only be written by %v — an overwrite or removal would change or lose a permanent record", s.Method, s.Table.Name, keysOf(al)), nil)
+			c.Violate("C16.INSONLY", key, p.Pos(s.At()), fmt.Sprintf("%s on %s: this table may only be written by %v — an overwrite or removal would change or lose a permanent record", s.Method, s.Table.Name, keysOf(al)), nil)
 			continue
 		}
 		if s.Table.Name == "DataResolver" {
@@ -92,13 +92,13 @@ func checkC16(c *Ctx, e *Env) {
 				}
 			}
 			if ok {
-				c.Hold("C16.INSONLY", key, p.Pos(s.Call.Pos()), "Save of a row that consists solely of its primary key (idempotent)", nil)
+				c.Hold("C16.INSONLY", key, p.Pos(s.At()), "Save of a row that consists solely of its primary key (idempotent)", nil)
 			} else {
-				c.Violate("C16.INSONLY", key, p.Pos(s.Call.Pos()), "Save on DataResolver with non-key content "+strings.Join(extra, ",")+": repeated registration could alter the record", nil)
+				c.Violate("C16.INSONLY", key, p.Pos(s.At()), "Save on DataResolver with non-key content "+strings.Join(extra, ",")+": repeated registration could alter the record", nil)
 			}
 			continue
 		}
-		c.Hold("C16.INSONLY", key, p.Pos(s.Call.Pos()), s.Method+" on insert-only table "+s.Table.Name, nil)
+		c.Hold("C16.INSONLY", key, p.Pos(s.At()), s.Method+" on insert-only table "+s.Table.Name, nil)
 	}
 	c.Min("ORM write sites in x/data", 5, nW)
 	c.ExpectCanary("C16.INSONLY")
@@ -556,122 +556,96 @@ func ruleIriProvenance(c *Ctx, m *Model, writer *ssa.Function, rule string) {
 	}
 }
 
+// ruleC16Mgr decides the manager discipline on the explored paths (E1) of the two resolver handlers,
+// wherever the reads, tests and writes live:
+//   RegisterResolver — every state effect lies behind `manager == nil` (public resolver) or
+//     `manager == signer` for the resolver fetched by the id in the message, and the registration row
+//     names that resolver;
+//   DefineResolver — every committed path inserts exactly one Resolver whose manager is the signer,
+//     or nil exactly when the message says public, and whose URL is the message's.
 func ruleC16Mgr(c *Ctx, m *Model) {
 	p := m.P
-	var reg, def *EntryPoint
-	for _, ep := range m.Entries {
-		if ep.Kind == "msg" && ep.Implemented {
-			switch ep.Name {
-			case "RegisterResolver":
-				reg = ep
-			case "DefineResolver":
-				def = ep
+	r := RunE1(m)
+	if h := r.byKey["data.RegisterResolver"]; h == nil || h.Cut {
+		c.Undecide("C16.MGR", "register", "-", "RegisterResolver exploration missing or cut short")
+	} else {
+		signer := "addr(req." + h.EP.SignerField + ")"
+		bad, badRow := "", ""
+		nEff := 0
+		for _, o := range h.Outs {
+			st := o.St
+			var mgrRows []string
+			for _, ob := range st.mem {
+				if ob.Table != nil && ob.Table.Name == "Resolver" && ob.Kind == "row" && ob.Origin == "get:Get(req.ResolverId)" {
+					mgrRows = append(mgrRows, ob.Name)
+				}
 			}
-		}
-	}
-	if reg == nil || reg.Fn == nil || def == nil || def.Fn == nil {
-		c.Undecide("C16.MGR", "handlers", "-", "RegisterResolver/DefineResolver handlers not found")
-		return
-	}
-	fn := reg.Fn
-	t := NewTermer(fn)
-	msg := fn.Params[len(fn.Params)-1].Name()
-	gets := ormCallsIn(m, fn, "Resolver", "Get")
-	if len(gets) != 1 || t.T(gets[0].Call.Args[1]) != msg+".ResolverId" {
-		c.Violate("C16.MGR", "register#resolver-row", p.Pos(fn.Pos()), "resolver is not fetched by Get(msg.ResolverId)", nil)
-		return
-	}
-	resolver := t.T(gets[0]) + "#0"
-	wantMgr := resolver + ".Manager"
-	wantSigner := "AccAddressFromBech32(" + msg + "." + reg.SignerField + ")#0"
-	var allowed []cfgEdge
-	foundEq, foundNil := false, false
-	for _, b := range fn.Blocks {
-		for _, in := range b.Instrs {
-			switch x := in.(type) {
-			case *ssa.Call:
-				pkg, name := calleePkgName(&x.Call)
-				isEq := (pkg == "bytes" && name == "Equal") || name == "AccAddress.Equals"
-				if !isEq {
+			for i := range st.events {
+				ev := &st.events[i]
+				if !isEffect(ev) || !inScope(o, ev) {
 					continue
 				}
-				var a, bb string
-				if len(x.Call.Args) == 2 {
-					a, bb = t.T(x.Call.Args[0]), t.T(x.Call.Args[1])
-				}
-				if (a == wantMgr && bb == wantSigner) || (a == wantSigner && bb == wantMgr) {
-					if ifi, br := branchOf(x, true); ifi != nil {
-						allowed = append(allowed, cfgEdge{ifi.Block(), br})
-						foundEq = true
+				nEff++
+				ok := false
+				for _, rn := range mgrRows {
+					a, b := sortedPair(rn+".Manager", signer)
+					if factBefore(st, "+Nil("+rn+".Manager)", ev) || factBefore(st, "+AddrEq("+a+", "+b+")", ev) || factBefore(st, "+BytesEq("+a+", "+b+")", ev) {
+						ok = true
 					}
 				}
-			case *ssa.BinOp:
-				if (x.Op == token.EQL || x.Op == token.NEQ) && (isNilConst(x.X) || isNilConst(x.Y)) {
-					other := x.X
-					if isNilConst(x.X) {
-						other = x.Y
-					}
-					if t.T(other) == wantMgr {
-						if ifi, br := branchOf(x, x.Op == token.EQL); ifi != nil {
-							allowed = append(allowed, cfgEdge{ifi.Block(), br})
-							foundNil = true
-						}
+				if !ok && bad == "" {
+					bad = "effect " + describeEvent(st, ev) + " at " + p.Pos(ev.Pos.Pos()) + " is reachable without the manager of Resolver(req.ResolverId) being nil or equal to the signer, on path {" + clip(strings.Join(st.facts, " "), 300) + "}"
+				}
+				if ev.Kind == "write" && ev.Table != nil && ev.Table.Name == "DataResolver" && ev.Row != nil {
+					if got := st.canon(ev.Row["ResolverId"]); got != "req.ResolverId" && badRow == "" {
+						badRow = "registration row carries resolver " + got
 					}
 				}
 			}
 		}
-	}
-	if !foundEq {
-		c.Violate("C16.MGR", "register#manager-check", p.Pos(fn.Pos()), "no comparison bytes.Equal("+wantMgr+", "+wantSigner+") found: the signer is not compared with the manager of the resolver named in the message", nil)
-		return
-	}
-	// effects: ORM writes and calls into functions that (transitively) write
-	writers := writerFns(m)
-	reach := reachableWithout(fn, allowed)
-	nEff, bad := 0, 0
-	for _, ci := range callsIn(fn) {
-		isEff := false
-		if oc := m.AsORMCall(ci); oc != nil && isWriteOp(oc.Kind) {
-			isEff = true
-		} else if sc := ci.Common().StaticCallee(); sc != nil && writers[sc] {
-			isEff = true
+		if bad != "" {
+			c.Violate("C16.MGR", "register#effects-guarded", p.Pos(h.Fn.Pos()), bad, nil)
+		} else {
+			c.Check(nEff >= 2, "C16.MGR", "register#effects-guarded", p.Pos(h.Fn.Pos()), fmt.Sprintf("all %d state effects on explored paths lie behind manager == nil (public) or manager == signer for the resolver named in the message", nEff))
 		}
-		if !isEff {
-			continue
+		c.Check(badRow == "", "C16.MGR", "register#row-resolver", p.Pos(h.Fn.Pos()), "registration rows carry req.ResolverId (the resolver whose manager was checked) "+badRow)
+	}
+	if h := r.byKey["data.DefineResolver"]; h == nil || h.Cut {
+		c.Undecide("C16.MGR", "define", "-", "DefineResolver exploration missing or cut short")
+	} else {
+		signer := "addr(req." + h.EP.SignerField + ")"
+		bad := ""
+		n := 0
+		for _, o := range h.Outs {
+			if o.Kind != exitReturn {
+				continue
+			}
+			n++
+			st := o.St
+			var ins []*Event
+			for i := range st.events {
+				if ev := &st.events[i]; ev.Kind == "write" && ev.Table != nil && ev.Table.Name == "Resolver" {
+					ins = append(ins, ev)
+				}
+			}
+			if len(ins) != 1 || ins[0].OpKind != "insert" {
+				bad = fmt.Sprintf("%d Resolver writes on a committed path (required: exactly one insert)", len(ins))
+				continue
+			}
+			mgr, url := st.canon(ins[0].Row["Manager"]), st.canon(ins[0].Row["Url"])
+			pub, known := st.known("Bool(req.Public)")
+			switch {
+			case mgr == signer && (!known || !pub):
+			case mgr == "nil" && known && pub:
+			default:
+				bad = "stored manager is " + mgr + " on path {" + clip(strings.Join(st.facts, " "), 200) + "} (required: the signer, or nil exactly when the message says public)"
+			}
+			if url != "req.ResolverUrl" {
+				bad = "stored URL is " + url
+			}
 		}
-		nEff++
-		if reach[ci.Block()] {
-			bad++
-			c.Violate("C16.MGR", "register#effect-unguarded", p.Pos(ci.Pos()), "state effect reachable without passing Manager == nil or bytes.Equal(Manager, signer) == true", nil)
-		}
+		c.Check(bad == "" && n >= 2, "C16.MGR", "define#manager", p.Pos(h.Fn.Pos()), fmt.Sprintf("%d committed paths: one Resolver insert each, manager = signer or nil (public), URL = req.ResolverUrl %s", n, bad))
 	}
-	if bad == 0 {
-		c.Check(nEff >= 2, "C16.MGR", "register#effects-guarded", p.Pos(fn.Pos()), fmt.Sprintf("all %d state effects of RegisterResolver are reachable only through Manager == nil (public, explicit test: %v) or bytes.Equal(Manager, signer)", nEff, foundNil))
-	}
-	// the DataResolver row names the resolver of the message
-	saves := ormCallsIn(m, fn, "DataResolver", "Save")
-	if len(saves) == 1 {
-		fs, lit := literalRowFields(saves[0].Call.Args[1])
-		ok := lit && len(fs["ResolverId"]) == 1 && t.T(fs["ResolverId"][0]) == msg+".ResolverId"
-		c.Check(ok, "C16.MGR", "register#row-resolver", p.Pos(saves[0].Pos()), "registration row carries msg.ResolverId (the resolver whose manager was checked)")
-	}
-	// DefineResolver: manager is signer or nil
-	df := def.Fn
-	dt := NewTermer(df)
-	dmsg := df.Params[len(df.Params)-1].Name()
-	dins := ormCallsIn(m, df, "Resolver", "InsertReturningID")
-	if len(dins) != 1 {
-		c.Violate("C16.MGR", "define#insert", p.Pos(df.Pos()), "expected exactly one Resolver.InsertReturningID", nil)
-		return
-	}
-	fs, lit := literalRowFields(dins[0].Call.Args[1])
-	mt := ""
-	if lit && len(fs["Manager"]) == 1 {
-		mt = dt.T(fs["Manager"][0])
-	}
-	want1 := "AccAddressFromBech32(" + dmsg + "." + def.SignerField + ")#0"
-	okM := mt == want1 || mt == "phi("+want1+" | nil)" || mt == "phi(nil | "+want1+")" || strings.HasPrefix(mt, "phi(") && onlyOf(mt, want1, "nil")
-	c.Check(okM, "C16.MGR", "define#manager", p.Pos(dins[0].Pos()), "stored manager is the signer or nil (public): "+mt)
 }
 
 func onlyOf(phi string, allowed ...string) bool {
